@@ -258,6 +258,21 @@ var errConstructs = []struct {
 	{"{{ \"bad \\q escape\" }}", true},
 	{"{% if a\n %}x{% endif %}", true},
 	{"{{ a ~ }}", true},
+	// arguments that stop short: the parser has no token left to blame
+	{"{% for item %}x{% endfor %}", true},
+	{"{% set answer %}", true},
+	{"{% with total %}x{% endwith %}", true},
+	{"{% include \"other.html\" with user %}", true},
+	{"{% import \"lib2.html\" %}", true},
+	{"{% widthratio 10 20 30 as %}", true},
+	{"{% if %}x{% endif %}", true},
+	{"{% cycle %}", true},
+	{"{% macro %}{% endmacro %}", true},
+	{"{% block %}{% endblock %}", true},
+	{"{% ifequal a %}x{% endifequal %}", true},
+	{"{% templatetag %}", true},
+	{"{% now %}", true},
+	{"{% autoescape %}x{% endautoescape %}", true},
 }
 
 // genErrFile plants one failing construct at a random position of one file of a composition.
@@ -265,7 +280,7 @@ func genErrFile(rg *rng, i int) caseT {
 	pad := rg.pick([]string{"", "x", "line one\nline two\n", "  \t", "é\n\n  ab", "<p>\n"})
 	c := errConstructs[rg.intn(len(errConstructs))]
 	planted := pad + c.text + "tail"
-	files := map[string]string{}
+	files := map[string]string{"other.html": "O", "lib2.html": "{% macro lm() export %}m{% endmacro %}"}
 	where := rg.intn(8)
 	expect := "main.html"
 	l, cc := 0, 0
@@ -365,13 +380,16 @@ func execErrFile(r *run, c caseT) {
 		r.reject(id, "compile error does not name the template it occurred in", detail)
 		return
 	}
-	if stage == "compile" && (perr.Line != line || perr.Column < col || perr.Column >= col+n) {
+	if stage == "compile" && perr.Line > 0 && (perr.Line != line || perr.Column < col || perr.Column >= col+n) {
 		r.reject(id, "compile error position is not inside the offending construct", detail)
 		return
 	}
 	if perr.Line > 0 {
 		if _, ok := offsetOf(named, perr.Line, perr.Column); !ok {
 			r.reject(id, "error position outside the named source", detail)
+		} else if perr.Token != nil && perr.Token.Filename == perr.Filename && (perr.Token.Line != perr.Line || perr.Token.Col != perr.Column) {
+			detail["token"] = perr.Token.String()
+			r.reject(id, "the error's position is not the position of the token it reports", detail)
 		} else if perr.Token != nil && perr.Token.Line == perr.Line && perr.Token.Col == perr.Column {
 			if why := tokenAt(named, perr.Token); why != "" {
 				detail["token"] = perr.Token.String()
